@@ -299,13 +299,18 @@ def rule_lib(A: Analysis, rep):
         det = "source `%s`, empty-string guard=%s, filtered=%s — ''.split(':') is [''] so the empty list would come back as [Path('.')]" % (src, from_guard, filtered)
         # path mapping in order
         rets = [n for n in g.nodes if n.kind == "stmt" and isinstance(n.ast, ast.Return) and sp in list(ast.walk(n.ast))]
-        ok_map = len(rets) == 1 and norm(rets[0].ast.value) in ("list(map(pathlib.Path, %s))" % norm(sp), "[pathlib.Path(p) for p in %s]" % norm(sp))
+        from ..analysis import canon
+        import copy as _copy
+        want_map = norm(canon(ast.parse("[pathlib.Path(p) for p in %s]" % norm(sp), mode="eval").body))
+        got_map = norm(canon(_copy.deepcopy(rets[0].ast.value))) if len(rets) == 1 else ""
+        # list(<genexp>) and [<genexp>] are the same list
+        ok_map = got_map in (want_map, "list(%s)" % want_map) and isinstance(rets[0].ast.value, (ast.ListComp, ast.Call))
         if not filtered:
             rep.check(ok_map, "LIB1", "paths in listed order", gd.node, "", "get_deps_paths does not map the split parts to paths in order")
     rep.check(ok, "LIB1", "get_deps_paths empty", gd.node, "writer maps the empty list to '' and the reader maps '' back to []", det, key="LIB1|get_deps_paths empty")
     go = A.fn("lib.path.get_output_path")
     r = [x for x in walk_local(go.node) if isinstance(x, ast.Return)]
-    rep.check(len(r) == 1 and norm(r[0].value) == "pathlib.Path(os.environ[OUTPUT_ENV_VARIABLE_NAME])", "LIB2", "get_output_path = COND_OUT", go.node, "", "get_output_path returns `%s`" % (norm(r[0].value) if r else "?"))
+    rep.check(len(r) == 1 and A.xtext(r[0].value, go) == "pathlib.Path(os.environ[OUTPUT_ENV_VARIABLE_NAME])", "LIB2", "get_output_path = COND_OUT", go.node, "", "get_output_path returns `%s`" % (norm(r[0].value) if r else "?"))
     io = A.fn("lib.path.in_output_dir")
     g = A.cfg(io, "plain")
     rets = [n for n in g.nodes if n.kind == "stmt" and isinstance(n.ast, ast.Return) and norm(n.ast.value) == "get_output_path() / %s" % io.params[0]]
